@@ -5,6 +5,8 @@ Hypothesis (generator + shrinker) and hashlib / an independent SipHash-2-4 (orac
 harness/C14_runner.cpp (tlx code, flavour R: -O1 -DNDEBUG ASan+UBSan) on the C++ side.
 
     C14_check.py sweep    deterministic sweep: every length 0..1100 x 4 digests x 3 chunkings (+ SipHash lengths x offsets)
+                          + the scale classes: generated messages of 8 KiB .. 16 MiB (thorough: .. 256 MiB) around the
+                          points where the encoded bit length gains a byte, and SipHash messages up to 64 KiB
     C14_check.py hyp      Hypothesis search (digest and SipHash properties), sharded over worker processes
     C14_check.py replay   re-execute the self-contained JSON case in $REPLAY_FILE (no Hypothesis involved)
 
@@ -189,8 +191,7 @@ def siphash24(key, msg):
         v[2] = _rotl(v[2], 32)
 
     padded = msg + b"\0" * (7 - len(msg) % 8) + bytes([len(msg) % 256])
-    for i in range(0, len(padded), 8):
-        m = int.from_bytes(padded[i:i + 8], "little")
+    for m in struct.unpack("<%dQ" % (len(padded) // 8), padded):  # the 64-bit little-endian words m_i
         v[3] ^= m
         sipround()
         sipround()
@@ -238,16 +239,64 @@ def validate_oracles():
             raise Machinery("hashlib %s is not the standard function" % a)
 
 
+def validate_generator(exe):
+    """the runner's gen_bytes must be byte-identical to the Python one (machinery error otherwise)"""
+    r = Runner(exe)
+    try:
+        for seed in (0, 1, 2 ** 32 - 1, 2 ** 32, 2 ** 64 - 1, 12345678901234567):
+            for n in (0, 1, 2, 3, 4, 5, 7, 8, 9, 63, 1000, 4099, 70001):
+                if r.call(b"P" + struct.pack("<QI", seed, n)) != random.Random(seed).randbytes(n):
+                    raise Machinery("runner gen_bytes(%d, %d) differs from random.Random(seed).randbytes(n)" % (seed, n))
+    finally:
+        r.close()
+
+
 # ----------------------------------------------------------------------------------------------------------------------
 # cases: JSON-able dicts
 #   {"kind":"digest","algo":..,"form":..,"ctor":..,"chunks":[[len,style],..],"msg":hex}
+#   {"kind":"digest", ... ,"gen":{"seed":s,"len":n}}     generated message gen_bytes(s, n) instead of "msg" (scale class)
 #   {"kind":"siphash","variant":..,"msg_off":n,"key_off":n,"key":hex,"msg":hex}
 
-def digest_case(algo, form, ctor, chunks, msg):
+def gen_bytes(seed, n):
+    """the generated message of a scale case: MT19937 seeded with the integer `seed`, n bytes. The runner implements the
+    same generator (C14_runner.cpp PyMT/gen_bytes), so that megabytes need not travel through the pipe; the two are
+    compared at start-up (validate_generator)."""
+    key = (seed, n)
+    if _gen_cache.get("key") != key:
+        _gen_cache["key"] = None
+        # pieces of 64 MiB (a multiple of 4 bytes, so the concatenation is the same MT19937 word stream as one
+        # randbytes(n) call; getrandbits() itself is limited to 2^31 - 1 bits)
+        r, step = random.Random(seed), 1 << 26
+        _gen_cache["val"] = r.randbytes(n) if n <= step else b"".join(r.randbytes(min(step, n - i))
+                                                                      for i in range(0, n, step))
+        _gen_cache["key"] = key
+    return _gen_cache["val"]
+
+
+_gen_cache = {}
+_digest_cache = {}
+_sip_cache = {}
+
+
+def msg_len(case):
+    return case["gen"]["len"] if "gen" in case else len(case["msg"]) // 2
+
+
+def msg_bytes(case):
+    return gen_bytes(case["gen"]["seed"], case["gen"]["len"]) if "gen" in case else bytes.fromhex(case["msg"])
+
+
+def digest_case(algo, form, ctor, chunks, msg, gen=None):
+    """gen = (seed, length): the message is gen_bytes(seed, length) and `msg` is ignored"""
     if form >= 4:
         chunks, ctor = [], 0
-    return {"kind": "digest", "algo": ALGOS[algo], "form": FORMS[form], "ctor": CTORS[ctor],
-            "chunks": [[n, STYLES[s]] for n, s in chunks], "msg": msg.hex()}
+    c = {"kind": "digest", "algo": ALGOS[algo], "form": FORMS[form], "ctor": CTORS[ctor],
+         "chunks": [[n, STYLES[s]] for n, s in chunks]}
+    if gen is None:
+        c["msg"] = msg.hex()
+    else:
+        c["gen"] = {"seed": gen[0], "len": gen[1]}
+    return c
 
 
 def sip_case(variant, msg_off, key_off, key, msg):
@@ -258,14 +307,16 @@ def sip_case(variant, msg_off, key_off, key, msg):
 
 
 def encode(case):
-    msg = bytes.fromhex(case["msg"])
     if case["kind"] == "digest":
-        out = bytearray(b"D")
+        out = bytearray(b"G" if "gen" in case else b"D")
         out += bytes([ALGOS.index(case["algo"]), FORMS.index(case["form"]), CTORS.index(case["ctor"])])
         out += struct.pack("<I", len(case["chunks"]))
         for n, s in case["chunks"]:
             out += struct.pack("<IB", n, STYLES.index(s))
-        return bytes(out) + msg
+        if "gen" in case:
+            return bytes(out) + struct.pack("<QI", case["gen"]["seed"], case["gen"]["len"])
+        return bytes(out) + bytes.fromhex(case["msg"])
+    msg = bytes.fromhex(case["msg"])
     out = bytearray(b"S")
     out += bytes([SIP_VARIANTS.index(case["variant"]), case["msg_off"], case["key_off"]])
     out += bytes.fromhex(case["key"])
@@ -273,16 +324,32 @@ def encode(case):
 
 
 def expected(case):
-    msg = bytes.fromhex(case["msg"])
     if case["kind"] == "digest":
-        h = hashlib.new(case["algo"], msg)
+        if "gen" in case:  # long message hashed in several forms / chunkings: one hashlib pass per (algorithm, message)
+            key = (case["algo"], case["gen"]["seed"], case["gen"]["len"])
+            h = _digest_cache.get(key)
+            if h is None:
+                if len(_digest_cache) >= 8:
+                    _digest_cache.clear()
+                h = _digest_cache[key] = hashlib.new(case["algo"], msg_bytes(case))
+        else:
+            h = hashlib.new(case["algo"], bytes.fromhex(case["msg"]))
         f = case["form"]
         if f in ("digest", "finalize"):
             return h.digest()
         if f in ("digest_hex", "helper_hex_ptr", "helper_hex_str"):
             return h.hexdigest().encode()
         return h.hexdigest().upper().encode()
-    v = struct.pack("<Q", siphash24(bytes.fromhex(case["key"]), msg))
+    if len(case["msg"]) >= 2048:  # long message evaluated at several alignments / variants: one reference pass
+        key = (case["key"], hashlib.blake2b(case["msg"].encode(), digest_size=16).digest())
+        h = _sip_cache.get(key)
+        if h is None:
+            if len(_sip_cache) >= 8:
+                _sip_cache.clear()
+            h = _sip_cache[key] = siphash24(bytes.fromhex(case["key"]), bytes.fromhex(case["msg"]))
+    else:
+        h = siphash24(bytes.fromhex(case["key"]), bytes.fromhex(case["msg"]))
+    v = struct.pack("<Q", h)
     return v * 3 if case["variant"] == "all3" else v
 
 
@@ -295,13 +362,17 @@ def show(b, case):
 
 
 def describe(case):
-    msg = bytes.fromhex(case["msg"])
-    m = case["msg"] if len(msg) <= 48 else case["msg"][:64] + "...(%d bytes)" % len(msg)
+    n = msg_len(case)
+    if "gen" in case:
+        m = "gen_bytes(seed=%d, len=%d) = random.Random(seed).randbytes(len)" % (case["gen"]["seed"], n)
+    else:
+        m = case["msg"] if n <= 48 else case["msg"][:64] + "...(%d bytes)" % n
     if case["kind"] == "digest":
         ch = case["chunks"]
-        chs = " ".join("%d%s" % (n, {"ptr": "", "sv": "v", "string": "s"}[s]) for n, s in ch[:24]) + \
+        chs = " ".join("%d%s" % (k, {"ptr": "", "sv": "v", "string": "s"}[s]) for k, s in ch[:24]) + \
             (" ...(%d chunks)" % len(ch) if len(ch) > 24 else "")
-        return "%s %s ctor=%s len=%d chunks=[%s] msg=%s" % (case["algo"], case["form"], case["ctor"], len(msg), chs, m)
+        return "%s %s ctor=%s len=%d chunks=[%s] msg=%s" % (case["algo"], case["form"], case["ctor"], n, chs, m)
+    msg = bytes.fromhex(case["msg"])
     return "siphash %s len=%d msg_off=%d key_off=%d key=%s msg=%s" % (case["variant"], len(msg), case["msg_off"],
                                                                    case["key_off"], case["key"], m)
 
@@ -354,7 +425,7 @@ def check_case(runner, case, has_sse2=True):
 def classify(case):
     """(labels, nontrivial) by the DESIGN §4 C14 rule"""
     labels = []
-    n = len(case["msg"]) // 2
+    n = msg_len(case)
     if case["kind"] == "digest":
         a = case["algo"]
         B = BLOCK[a]
@@ -364,6 +435,31 @@ def classify(case):
             labels.append("len/0")
         elif n >= 10000:
             labels.append("len/long")
+        # scale classes: number of significant bytes of the encoded bit length (8 n)
+        if n >= 1 << 13:
+            labels.append("scale/bitlen>=2^16(8KiB)")
+        if n >= 1 << 21:
+            labels.append("scale/bitlen>=2^24(2MiB)")
+            labels.append("scale/>=2MiB/" + a)
+            labels.append("scale/>=2MiB/" + case["form"])
+        if n >= 1 << 24:
+            labels.append("scale/bitlen>=2^27(16MiB)")
+        if n >= 1 << 28:
+            labels.append("scale/bitlen>=2^31(256MiB)")
+        if "gen" in case:
+            labels.append("scale/generated-message")
+        if n >= 1 << 21 and case["chunks"]:
+            chl = [c[0] for c in case["chunks"]]
+            if len(chl) == 1:
+                labels.append("scale/>=2MiB/one-call")
+            if any(chl[i] >= 1 << 20 and 0 < sum(chl[:i]) < 256 for i in range(1, min(len(chl), 4))):
+                labels.append("scale/>=2MiB/huge-chunk-after-small")
+            if len(chl) >= 2 and sum(chl[:-1]) >= 1 << 20 and 0 < chl[-1] < 256:
+                labels.append("scale/>=2MiB/small-chunk-after-huge")
+            if len(chl) >= 256:
+                labels.append("scale/>=2MiB/many-chunks")
+            if case["ctor"] != "default" and chl[0] >= 1 << 20:
+                labels.append("scale/>=2MiB/ctor-huge")
         if rem >= B - LENFIELD[a]:
             labels.append("tail/extra-pad-block")
         elif rem == B - LENFIELD[a] - 1:
@@ -403,6 +499,10 @@ def classify(case):
         labels.append("sip/key-unaligned")
     if n >= 256:
         labels.append("sip/len>=256")
+    if n >= 1024:
+        labels.append("scale/sip>=1KiB")
+    if n >= 65536:
+        labels.append("scale/sip>=64KiB")
     if n >= 8:
         labels.append("sip/multi-word")
     return labels, (n % 8 != 0 and case["msg_off"] != 0)
@@ -528,11 +628,97 @@ def sweep_shard(args):
     return r
 
 
+# ---- scale classes of the sweep ---------------------------------------------------------------------------------------
+# Total lengths just below / at / above the points where the encoded bit length 8n gains a byte: 2^16 bits = 8 KiB,
+# 2^24 bits = 2 MiB (2^8 bits = 32 B is part of the 0..1100 sweep; 2^32 bits = 512 MiB is too big and not run), plus
+# 64 KiB (16-bit byte counts), ~3 MiB and 16 MiB +- 1 (bit 27 of the bit length). The thorough tier goes on to
+# 32 / 64 / 128 / 256 MiB (bits 28..31). Messages are gen_bytes(seed, n) on both sides.
+LONG_SMALL = [8191, 8192, 8193, 65535, 65536, 65537]
+LONG_2M = [(1 << 21) - 1, 1 << 21, (1 << 21) + 1, 3 * (1 << 20) + 17]
+LONG_16M = [(1 << 24) - 1, 1 << 24, (1 << 24) + 1]
+LONG_THOROUGH = [(1 << 21) + 55, (1 << 21) + 64, (1 << 22) - 1, (1 << 22) + 111, (1 << 23) + 1,
+                 (1 << 25) - 1, (1 << 25) + 1, (1 << 26) + 1, (1 << 27) + 63, (1 << 28) + 5]
+SIP_LONG = [255, 256, 257, 511, 512, 513, 1023, 1024, 1025, 2047, 2049, 4095, 4096, 4097, 8191, 8192, 8193, 16383,
+            16384, 16385, 32767, 32768, 32769, 65535, 65536, 65537, 65543, 65536 + 255, 65536 + 256, 65536 + 257]
+
+
+def long_lengths(tier):
+    return LONG_SMALL + LONG_2M + LONG_16M + (LONG_THOROUGH if tier == "thorough" else [])
+
+
+def pieces(L, size, style0=0):
+    out = [(size, (style0 + i) % 3) for i in range(L // size)]
+    if L % size:
+        out.append((L % size, (style0 + len(out)) % 3))
+    return out
+
+
+def long_cases(L, a, seed, full):
+    """the cases of one (length, algorithm) job; full = every result form and every chunking (lengths <= 4 MiB and the
+    whole thorough tier up to 16 MiB), otherwise two result forms of the one-call case and two chunkings"""
+    gen = ((seed * 1000003 + L * 4 + a) & M64, L)
+    k = L + a
+    forms = list(range(8)) if full else [k % 4, 4 + k % 4]
+    for f in forms:                                        # fed in one call (forms 0..3) / helper functions (4..7)
+        yield digest_case(a, f, (k + f) % 3, [(L, (k + f) % 3)], b"", gen)
+    small = [1, 7, 63, 65][k % 4]
+    # one huge chunk after a small one; the small one goes through the constructor in 2 of 3 cases
+    yield digest_case(a, k % 4, k % 3, [(small, k % 3), (L - small, (k + 1) % 3)], b"", gen)
+    # many 4096-byte chunks
+    yield digest_case(a, (k + 1) % 4, 0, pieces(L, 4096, k), b"", gen)
+    if full:
+        # a huge chunk (through the constructor in 2 of 3 cases) followed by a small one
+        yield digest_case(a, (k + 2) % 4, (k + 1) % 3, [(L - small, (k + 2) % 3), (small, k % 3)], b"", gen)
+        # odd-sized pieces that are no multiple of the block size, and 64 KiB + 1 pieces
+        yield digest_case(a, (k + 3) % 4, (k + 2) % 3, pieces(L, 1000003, k + 1), b"", gen)
+        yield digest_case(a, k % 4, k % 3, pieces(L, 65537, k + 2), b"", gen)
+        if L <= 70000:
+            yield digest_case(a, (k + 1) % 4, 0, pieces(L, 1, 0), b"", gen)       # byte by byte
+            yield digest_case(a, (k + 2) % 4, 0, pieces(L, BLOCK[ALGOS[a]] - 1, 1), b"", gen)
+
+
+def sweep_long_job(args):
+    exe, seed, what, L, a, tier = args
+    st = Stats()
+    runner = Runner(exe)
+    try:
+        has_sse2 = runner.call(b"I") == b"\1"
+        if what == "digest":
+            full = L <= (1 << 22) + 4096 or (tier == "thorough" and L <= (1 << 24) + 1)
+            for c in long_cases(L, a, seed, full):
+                evaluate(runner, st, c, has_sse2)
+                st.labels["sweep/digest-long"] = st.labels.get("sweep/digest-long", 0) + 1
+        else:
+            msg = random.Random("c14-siplong/%d/%d" % (seed, L)).randbytes(L)
+            rkey = random.Random("c14-siplongkey/%d/%d" % (seed, L)).randbytes(16)
+            for off in (0, 1, 7, 8, 9, 15):
+                for c in (sip_case(6, off, 0, DEFAULT_KEY, msg), sip_case(6, off, (off * 7 + L) % 16, rkey, msg),
+                          sip_case(3 + (L + off) % 3, off, 0, DEFAULT_KEY, msg), sip_case((L + off) % 3, off, off, rkey, msg)):
+                    evaluate(runner, st, c, has_sse2)
+                    st.labels["sweep/siphash-long"] = st.labels.get("sweep/siphash-long", 0) + 1
+    except CaseFailure:
+        pass
+    finally:
+        runner.close()
+    r = st.result()
+    r["shard"] = "%s-%d-%d" % (what, L, a)
+    return r
+
+
+def sweep_job(args):
+    return sweep_long_job(args[1:]) if args[0] == "long" else sweep_shard(args[1:])
+
+
 # ----------------------------------------------------------------------------------------------------------------------
 # Hypothesis search
 
 # residues mod 128 within [-9, +1] of a 64- or 128-byte block boundary (all padding cases of both block sizes)
 BOUNDARY_RESIDUES = [0, 1] + list(range(55, 66)) + list(range(119, 128))
+# scale class of the Hypothesis step: base lengths (2 MiB three times as likely; 4 and 16 MiB only in the thorough
+# tier, the quick tier has them in the sweep) and offsets
+HUGE_BASES = [1 << 21, 1 << 21, 1 << 21, 3 << 20, 1 << 13, 1 << 16]
+HUGE_BASES_THOROUGH = HUGE_BASES + [1 << 22, 1 << 24]
+HUGE_DELTAS = [0, 1, -1, 55, 56, 63, 64, 65, 111, 112, 119, 120, 127, 128, -9, -8]
 
 
 def hyp_shard(args):
@@ -553,6 +739,7 @@ def hyp_shard(args):
     runner = Runner(exe)
     has_sse2 = runner.call(b"I") == b"\1"
     br = BOUNDARY_RESIDUES
+    huge_bases = HUGE_BASES_THOROUGH if os.environ.get("VERIF_TIER") == "thorough" else HUGE_BASES
 
     @S.composite
     def digest_inputs(draw):
@@ -566,13 +753,34 @@ def hyp_shard(args):
             q = draw(S.integers(0, 8)) if lsel < 39 else draw(S.integers(78, 781))
             r = draw(S.sampled_from(br)) if draw(S.integers(0, 2)) else draw(S.integers(0, 127))
             L = 128 * q + r
-        if L <= 1160 and draw(S.integers(0, 3)) != 3:
+        # scale class (rare: about 1 example in 640, i.e. a few dozen per quick run): a generated message whose
+        # length is next to a point where the encoded bit length gains a byte (8 KiB, 2 MiB), 64 KiB, ~3 MiB or 16 MiB
+        gen = None
+        if lsel == 39 and draw(S.integers(0, 15)) == 15:
+            base = draw(S.sampled_from(huge_bases))
+            L = base + draw(S.sampled_from(HUGE_DELTAS))
+            gen = (draw(S.integers(0, 2 ** 64 - 1)), L)
+            msg = b""
+        elif L <= 1160 and draw(S.integers(0, 3)) != 3:
             msg = draw(S.binary(min_size=L, max_size=L))
         else:
             # long (or every fourth short) message: content expanded from a drawn 64-bit seed
             msg = random.Random(draw(S.integers(0, 2 ** 64 - 1))).randbytes(L)
         if form >= 4:
-            return form, 0, [], msg
+            return form, 0, [], msg, gen
+        if gen is not None:
+            shape = draw(S.integers(0, 4))
+            st = draw(S.integers(0, 26))
+            if shape == 1:      # one huge chunk after a small one
+                k = draw(S.integers(0, 130))
+                return form, ctor, [(k, st % 3), (L - k, st // 3 % 3)], msg, gen
+            if shape == 2:      # a small chunk after one huge one
+                k = draw(S.integers(0, 130))
+                return form, ctor, [(L - k, st % 3), (k, st // 3 % 3)], msg, gen
+            if shape == 3:      # many equal pieces
+                return form, ctor, pieces(L, draw(S.sampled_from([4096, 4095, 4097, 65536, 1000003])), st), msg, gen
+            if shape == 4:      # a few pieces of 1/2 .. 1/5 of the message
+                return form, ctor, pieces(L, L // draw(S.integers(2, 5)) + draw(S.integers(0, 64)), st), msg, gen
         ncuts = draw(S.integers(0, 11))
         cuts = []
         for _ in range(ncuts):
@@ -590,7 +798,7 @@ def hyp_shard(args):
             chunks.append((c - prev, styles % 3))
             styles //= 3
             prev = c
-        return form, ctor, chunks, msg
+        return form, ctor, chunks, msg, gen
 
     @S.composite
     def sip_inputs(draw):
@@ -600,7 +808,17 @@ def hyp_shard(args):
         lsel = draw(S.integers(0, 9))
         L = draw(S.integers(0, 130)) if lsel < 9 else draw(S.integers(131, 700))
         key = DEFAULT_KEY if 3 <= variant <= 5 or variant == 7 else draw(S.binary(min_size=16, max_size=16))
-        msg = draw(S.binary(min_size=L, max_size=L))
+        # scale classes (rare): a few KiB (about 1 example in 80) and around 16..64 KiB (about 1 in 160); the content
+        # is expanded from a drawn seed (Hypothesis byte strings of that size would exceed its buffer)
+        sub = draw(S.integers(0, 15)) if lsel == 9 else 0
+        if sub >= 13:
+            if sub < 15:
+                L = draw(S.integers(701, 8200))
+            else:
+                L = draw(S.sampled_from([1 << 14, 1 << 15, 1 << 16, (1 << 16) + 256])) + draw(S.integers(-9, 9))
+            msg = random.Random(draw(S.integers(0, 2 ** 64 - 1))).randbytes(L)
+        else:
+            msg = draw(S.binary(min_size=L, max_size=L))
         return variant, msg_off, key_off, key, msg
 
     # too_slow is wall-clock based: a shard shares its core with other checks (observed 4x slowdowns under load)
@@ -614,9 +832,9 @@ def hyp_shard(args):
         @settings(**common)
         @given(digest_inputs())
         def prop(inp):
-            form, ctor, chunks, msg = inp
+            form, ctor, chunks, msg, gen = inp
             for a in range(4):
-                evaluate(runner, st, digest_case(a, form, ctor, chunks, msg), has_sse2)
+                evaluate(runner, st, digest_case(a, form, ctor, chunks, msg, gen), has_sse2)
     else:
         @hseed(seed)
         @settings(**common)
@@ -666,12 +884,17 @@ def run_steps(mode):
     nworkers = int(os.environ.get("VERIF_WORKERS", "0") or 0) or os.cpu_count() or 4
     validate_oracles()
     exe = build_runner(work)
+    validate_generator(exe)
     t_built = time.time()
     ctx = multiprocessing.get_context("fork")
     if mode == "sweep":
         nshards = 32
-        jobs = [(exe, seed, s, nshards) for s in range(nshards)]
-        fn = sweep_shard
+        # the long (scale) jobs first, biggest first, so that they overlap with the many short shards
+        jobs = [("long", exe, seed, "digest", L, a, tier) for L in sorted(long_lengths(tier), reverse=True)
+                for a in range(4)]
+        jobs += [("long", exe, seed, "siphash", L, 0, tier) for L in sorted(SIP_LONG, reverse=True)]
+        jobs += [("short", exe, seed, s, nshards) for s in range(nshards)]
+        fn = sweep_job
     else:
         nshards = int(os.environ.get("C14_SHARDS", "32"))
         nd = int(os.environ.get("C14_EXAMPLES", "20000"))
@@ -702,7 +925,8 @@ def run_steps(mode):
         labels["shards-skipped-by-time-budget"] = skipped
     failure = None
     failing = [r["failure"] for r in results if r["failure"]]
-    failing.sort(key=lambda f: len(encode(f["case"])))  # deterministic choice: smallest case, ties in job order
+    # deterministic choice: smallest case (serialized size, then message length), ties in job order
+    failing.sort(key=lambda f: (len(encode(f["case"])), msg_len(f["case"])))
     for f in failing:
         again = confirm(exe, f["case"])
         if again is None:
